@@ -567,6 +567,13 @@ impl DmlExecutor {
                         })?;
 
                         if let Some(mut tuple) = updated {
+                            // The mark of a rolled-back deleter does not count and would be kept
+                            // by [Tuple::delete]
+                            if let Some(old_deleter) = tuple.xmax() {
+                                if snapshot.is_transaction_aborted(old_deleter) {
+                                    tuple.clear_delete_mark()?;
+                                }
+                            }
                             tuple.delete(self.ctx.tid())?;
                             index_btree.update(index_root, tuple, index_schema)?;
                         }
